@@ -1,5 +1,6 @@
 import WebpVerif.Model.Container
 import WebpVerif.Lemmas.OpenFile
+import WebpVerif.Lemmas.ScanAnim
 import WebpVerif.Lemmas.Riff
 
 /-!
@@ -11,7 +12,8 @@ This file proves the field-level facts for EVERY field value (14-bit VP8/VP8L si
 rule of the metadata accessors, and a complete parse∘print theorem for the two simple layouts.
 The scan loop over arbitrary chunk orders (`scan_full`), the whole-file theorem for extended
 stills (`open_extended_still`) and the exactness of the metadata accessors (`metadata_exact`) are
-proved in Lemmas/Scan.lean and Lemmas/OpenFile.lean.
+proved in Lemmas/Scan.lean and Lemmas/OpenFile.lean; the whole-file theorem for animated files
+(`open_animated`: frame count, loop duration, loop count, background, lossy-ness) in Lemmas/ScanAnim.lean.
 -/
 namespace C08
 open Container
@@ -138,5 +140,34 @@ theorem metadata_exact (flags r0 r1 r2 cw ch : Nat) (cs : List (List Nat × List
     VP8L chunk and a second EXIF chunk meets the hypotheses; the first EXIF wins -/
 example : ScanProof.firstRange EXIF 30 [(fourccOf "JUNK", [1, 2, 3]), (EXIF, [9]), (VP8L, [0x2f, 0, 0, 0, 0]), (EXIF, [7, 7])]
     = some (50, 51) := by decide
+
+/-- **Whole file, animated.** `WebPDecoder::new` on RIFF header + VP8X with the animation bit +
+    ANY sequence of ordinary chunks and ANMF frames (each frame: 16 header bytes, the header of
+    its first sub-chunk, anything after) containing at least one frame, an ANIM chunk of 6 bytes
+    somewhere and what the flags promise, succeeds and reports: the canvas size, the alpha flag,
+    `num_frames` = the number of ANMF chunks, `loop_duration` = the sum of the frames' 24-bit
+    durations (whatever the flag byte that shares the 32-bit word holds), lossy-ness = some frame
+    starts with a VP8 or ALPH sub-chunk, and `loop_count` / background colour (B,G,R,A stored,
+    R,G,B,A reported) from the FIRST ANIM chunk - whatever the order of the chunks. -/
+theorem open_animated (flags r0 r1 r2 cw ch : Nat) (items : List ScanProof.Item)
+    (hfl : flags < 256) (hr : r0 < 256 ∧ r1 < 256 ∧ r2 < 256)
+    (hcw : 1 ≤ cw ∧ cw ≤ 2 ^ 24) (hch : 1 ≤ ch ∧ ch ≤ 2 ^ 24) (hprod : cw * ch < 2 ^ 32)
+    (hall : ∀ it ∈ items, it.Ok)
+    (hsize : 22 + (ScanProof.layout (ScanProof.chunksOf items)).length < 2 ^ 32)
+    (hanim : flags / 2 % 2 = 1) (hframes : 0 < ScanProof.numFrames items)
+    (hanimc : ScanProof.has ANIM (ScanProof.chunksOf items) = true)
+    (hanim6 : ∀ c ∈ ScanProof.chunksOf items, c.1 = ANIM → c.2.length = 6)
+    (hicc : flags / 32 % 2 = 1 → ScanProof.has ICCP (ScanProof.chunksOf items) = true)
+    (hexif : flags / 8 % 2 = 1 → ScanProof.has EXIF (ScanProof.chunksOf items) = true)
+    (hxmp : flags / 4 % 2 = 1 → ScanProof.has XMP (ScanProof.chunksOf items) = true) :
+    ∃ info bs, openFile (ScanProof.extendedFile flags r0 r1 r2 cw ch (ScanProof.chunksOf items)) = .ok info ∧
+      (∃ c ∈ ScanProof.chunksOf items, c.1 = ANIM ∧ c.2 = bs) ∧
+      info.width = cw ∧ info.height = ch ∧ info.extended = true ∧ info.animation = true ∧
+      info.hasAlpha = (flags / 16 % 2 == 1) ∧ info.numFrames = ScanProof.numFrames items ∧
+      info.loopDuration = ScanProof.durSum items % 2 ^ 64 ∧
+      info.isLossy = (ScanProof.anyLossy items || ScanProof.has VP8 (ScanProof.chunksOf items)) ∧
+      info.loopCount = bs.getD 4 0 + 256 * bs.getD 5 0 ∧
+      info.background = [bs.getD 2 0, bs.getD 1 0, bs.getD 0 0, bs.getD 3 0] :=
+  ScanProof.open_animated flags r0 r1 r2 cw ch items hfl hr hcw hch hprod hall hsize hanim hframes hanimc hanim6 hicc hexif hxmp
 
 end C08
